@@ -32,6 +32,8 @@ def write(pid, tier, seed, level, coverage, assumptions, wall_s, violations, ext
         jsonschema.validate(doc, json.load(open(sp)))
     except ImportError:
         pass
+    if os.environ.get("VERIF_NO_EVIDENCE") == "1":
+        return  # mutant / scratch-tree runs must not overwrite the evidence of the real tree
     d = os.path.join(env.VERIF_DIR, "evidence")
     os.makedirs(d, exist_ok=True)
     tmp = os.path.join(d, f".{pid}.json.tmp")
